@@ -13,11 +13,23 @@ RULESETS = [
 ]
 
 
-def random_config(rng, want_class=None, timeout_choices=(None, 3600, 3600)):
+def random_config(rng, want_class=None, timeout_choices=(None, 3600, 3600, 0)):
     svcs = gen.service_tables(rng)
     use_class = rng.random() < 0.4 if want_class is None else want_class
     rules = rng.choice(RULESETS) if use_class else []
-    return proto.Config(svcs, timeout=rng.choice(list(timeout_choices)), rules=rules, use_class=use_class)
+    cfg = proto.Config(svcs, timeout=rng.choice(list(timeout_choices)), rules=rules, use_class=use_class)
+    # the modules may be listed explicitly and in either order, or pulled in through their dependencies (the default rendering)
+    r2 = random.Random(rng.random())
+    k = r2.random()
+    if k < 0.15:
+        cfg.modules = ("iauth_xquery", "iauth_class") if use_class else ("iauth", "iauth_xquery")
+    elif k < 0.3:
+        cfg.modules = ("iauth_class", "iauth_xquery", "iauth") if use_class else ("iauth_xquery", "iauth")
+    elif k < 0.34 and not use_class:
+        # the core alone: no service module, hence no services and no required data beyond the host name result
+        cfg.modules = ("iauth",)
+        cfg.services = []
+    return cfg
 
 
 def collision_scripts(rng, n):
@@ -206,7 +218,7 @@ def hist_jobs(build, n, seed, props, n_events=120, ids_pool=(3, 4, 5, 6, 17), op
         w0.setdefault("noise", 3)
         o["weights"] = w0
         rng2 = random.Random("%s/r/%d/%d" % (tag, seed, i))
-        if rng2.random() < reload_share:
+        if rng2.random() < reload_share and cfg.modules != ("iauth",):
             w = dict(o.get("weights") or {})
             w["reload"] = 3
             o["weights"] = w
